@@ -30,7 +30,7 @@ type c13Scenario struct {
 
 var c13Flavours = []string{
 	"paths", "alias", "unmatched-role", "override-inbound", "explicit", "alias-conflict", "parent-expr", "ipc",
-	"unmatched-channel", "override-outbound", "aggregator-level", "alias-conflict", "unmatched-alias", "mixed",
+	"unmatched-channel", "override-outbound", "aggregator-level", "alias-conflict", "unmatched-alias", "alias",
 	"alias-same-task", "template-connect-without-target", "inbound-explicit", "mixed", "override-inbound", "unmatched-role",
 }
 
@@ -191,7 +191,7 @@ func c13Gen(c *vlib.Ctx, idx int) c13Scenario {
 		if in.ch.Name == "gin" || in.ch.Name == "ovr" {
 			continue // an alias on a channel bound by several tasks would be a conflict by construction
 		}
-		if r.Intn(4) == 0 || ((fl == "alias" || fl == "alias-conflict" || fl == "unmatched-alias") && aliasN == 0) {
+		if r.Intn(3) == 0 || ((fl == "alias" || fl == "alias-conflict" || fl == "unmatched-alias") && aliasN < 2) {
 			aliasN++
 			setGlobal(in.task, in.ch.Name, fmt.Sprintf("al%d", aliasN))
 		}
@@ -462,6 +462,11 @@ func c13Run(c *vlib.Ctx, idx int) {
 		usedPorts := map[uint64]string{}
 		for _, ch := range inboundOf(tr) {
 			c.Count("inbound_channels_checked", 1)
+			if lv, fromAgg := declLevels(tr, ch.Name, true); lv > 1 {
+				c.Count("inbound_declared_at_2plus_levels", 1)
+			} else if fromAgg {
+				c.Count("inbound_inherited_from_aggregator", 1)
+			}
 			key := tr.path + ":" + ch.Name
 			addr := get(args, ch.Name, "address")
 			if get(args, ch.Name, "method") != "bind" || args["chans."+ch.Name+".numSockets"] != "1" {
@@ -516,6 +521,11 @@ func c13Run(c *vlib.Ctx, idx int) {
 		args := cfgOf[tr.path]
 		for _, ch := range outboundOf(tr) {
 			c.Count("outbound_channels_checked", 1)
+			if lv, fromAgg := declLevels(tr, ch.Name, false); lv > 1 {
+				c.Count("outbound_declared_at_2plus_levels", 1)
+			} else if fromAgg {
+				c.Count("outbound_inherited_from_aggregator", 1)
+			}
 			addr := get(args, ch.Name, "address")
 			if get(args, ch.Name, "method") != "connect" {
 				viol("OUTBOUND", "not-told-to-connect", fmt.Sprintf("task %s: outbound channel %s (target %q): method=%q address=%q", tr.path, ch.Name, ch.Target, get(args, ch.Name, "method"), addr))
@@ -641,4 +651,30 @@ func firstGroup(groups map[int]*roleSpec) *roleSpec {
 		return nil
 	}
 	return groups[ks[0]]
+}
+
+// declLevels counts at how many levels (template, task role, ancestors) a channel name is
+// declared for a task, and whether its nearest declaration sits on an aggregator.
+func declLevels(tr *roleSpec, name string, inbound bool) (levels int, nearestOnAggregator bool) {
+	nearest := -1
+	for i, p := range tr.chain() {
+		chs := p.Connect
+		if inbound {
+			chs = p.Bind
+		}
+		if _, ok := kvGetChan(chs, name); ok {
+			levels++
+			if nearest < 0 {
+				nearest = i
+			}
+		}
+	}
+	chs := tr.Task.Connect
+	if inbound {
+		chs = tr.Task.Bind
+	}
+	if _, ok := kvGetChan(chs, name); ok {
+		levels++
+	}
+	return levels, nearest > 0
 }
